@@ -75,6 +75,14 @@ def run(rep, tier, seed):
             if rng.random() < 0.5:
                 text += b"\n"
             add("l%d.%d" % (li, k), text)
+    # (a') every generated token string again as the TAIL of a directive that has already begun: the value of a `set` (bare,
+    #      or a string that was opened), the right-hand side of a bind, an indented line inside a block, a key name with a modifier
+    CONTEXTS = [b"set comment-begin ", b"set x ", b'set comment-begin "', b"set comment-begin 'a b", b'"\\C-a": ', b'"\\C-a": "', b"Control-a: ",
+                b"    ", b"$if mode=vi\n\t", b'"', b"Meta-", b"set keymap "]
+    tails = lines if tier == "thorough" or len(lines) < 1500 else rng.sample(lines, 1500)
+    for ki, ctx in enumerate(CONTEXTS):
+        for li, toks in enumerate(tails):
+            add("t%d.%d" % (ki, li), ctx + b"".join(spell(t, rng) for t in toks) + (b"\n" if rng.random() < 0.5 else b""))
     # (b) programs of several generated lines (the stateful part: condition stack, keymap)
     nprog = 3000 if tier == "quick" else 40000
     for pi in range(nprog):
